@@ -260,6 +260,13 @@ impl RunCfg {
             max_req
         };
         let zone_d7 = rng.below(8) == 0;
+        let p_cancel = rng.pick(&[0u64, 10, 20, 20, 30]);
+        let p_upgrade = rng.pick(&[0u64, 5, 10, 10]);
+        // development aids (notes/e2e.md): steer the random configuration towards one corner
+        let envu = |k: &str| std::env::var(k).ok().and_then(|s| s.parse::<u64>().ok());
+        let cap = envu("E2E_FORCE_CAP").map(|v| v != 0).unwrap_or(cap);
+        let zone_d7 = envu("E2E_FORCE_D7").map(|v| v != 0).unwrap_or(zone_d7);
+        let p_cancel = envu("E2E_PCANCEL").unwrap_or(p_cancel);
         RunCfg {
             master,
             run,
@@ -272,8 +279,8 @@ impl RunCfg {
             waves,
             n_main,
             zone_d7,
-            p_cancel: rng.pick(&[0u64, 10, 20, 20, 30]),
-            p_upgrade: rng.pick(&[0u64, 5, 10, 10]),
+            p_cancel,
+            p_upgrade,
         }
     }
 
@@ -787,7 +794,14 @@ enum Target {
     Unix(String),
 }
 
+/// Scenario device: dials are held at a gate (inside the requester's own future) until it is opened.
+struct Gate {
+    open: tokio::sync::watch::Receiver<bool>,
+    dial_started: Arc<Notify>,
+}
+
 struct Registry {
+    gate: Option<Gate>,
     cfg: Arc<RunCfg>,
     rec: Arc<Recorder>,
     targets: Vec<Target>,
@@ -870,6 +884,15 @@ impl Service<http::request::Parts> for E2eTransport {
                 reg.rec.req(rid as u32, json!({"e": "Dial", "r": rid, "c": id, "corigin": o.idx, "tr": format!("{:?}", o.tr),
                     "sproto": format!("{:?}", o.proto), "buf": if o.tr == Tr::Duplex { buf as i64 } else { -1 },
                     "ver": ver_str(parts.version)}));
+            }
+            if let Some(g) = &reg.gate {
+                g.dial_started.notify_one();
+                let mut rx = g.open.clone();
+                while !*rx.borrow() {
+                    if rx.changed().await.is_err() {
+                        break;
+                    }
+                }
             }
             // the connect itself is never abandoned half-way (a duplex connect whose requester went
             // away is C09's subject, finding D8): it completes in its own task
@@ -1332,14 +1355,14 @@ struct Env {
     rec: Arc<Recorder>,
 }
 
-async fn do_request<S, RB, E>(env: Arc<Env>, svc: S, plan: Arc<Plan>, req: Request<ScriptBody>) -> Outcome
+async fn do_request<F, RB, E>(env: Arc<Env>, fut: F, plan: Arc<Plan>) -> Outcome
 where
-    S: Service<Request<ScriptBody>, Response = Response<RB>, Error = E>,
+    F: Future<Output = Result<Response<RB>, E>>,
     RB: HttpBody<Data = Bytes> + Unpin,
     RB::Error: Into<BoxError> + Send,
     E: std::error::Error + 'static,
 {
-    let resp = match svc.oneshot(req).await {
+    let resp = match fut.await {
         Ok(r) => r,
         Err(e) => return Outcome::Error(format!("send: {}", err_chain(&e))),
     };
@@ -1454,22 +1477,8 @@ where
     }
 }
 
-async fn run_request<S, RB, E>(env: Arc<Env>, svc: S, plan: Arc<Plan>)
-where
-    S: Service<Request<ScriptBody>, Response = Response<RB>, Error = E> + Send + 'static,
-    S::Future: Send,
-    RB: HttpBody<Data = Bytes> + Unpin + Send + 'static,
-    RB::Error: Into<BoxError> + Send,
-    E: std::error::Error + Send + 'static,
-{
-    delay(plan.start_delay).await;
+fn build_request(env: &Arc<Env>, plan: &Arc<Plan>, cancel: &Arc<Notify>) -> Request<ScriptBody> {
     let cfg = env.cfg.clone();
-    let o = &cfg.origins[plan.opos];
-    env.rec.req(
-        plan.id,
-        json!({"e": "Issue", "r": plan.id, "origin": o.idx, "ver": if plan.h2 {"h2"} else {"h1"}, "upg": plan.upgrade}),
-    );
-    let cancel = Arc::new(Notify::new());
     let data = gen_body(cfg.seed, plan.id, 1, plan.req_len);
     let digest = format!("{:016x}", fnv1a(&data));
     let mut body = ScriptBody::new(data, &plan.req_chunks, plan.req_exact, env.rec.progress.clone());
@@ -1488,8 +1497,28 @@ where
     if plan.upgrade {
         rb = rb.header(http::header::UPGRADE, "verif-echo").header(http::header::CONNECTION, "upgrade");
     }
-    let req = rb.body(body).expect("request");
-    let mut op: Option<BoxFut<Outcome>> = Some(Box::pin(do_request(env.clone(), svc, plan.clone(), req)));
+    rb.body(body).expect("request")
+}
+
+async fn run_request<S, RB, E>(env: Arc<Env>, svc: S, plan: Arc<Plan>)
+where
+    S: Service<Request<ScriptBody>, Response = Response<RB>, Error = E> + Send + 'static,
+    S::Future: Send,
+    RB: HttpBody<Data = Bytes> + Unpin + Send + 'static,
+    RB::Error: Into<BoxError> + Send,
+    E: std::error::Error + Send + 'static,
+{
+    delay(plan.start_delay).await;
+    let cfg = env.cfg.clone();
+    let o = &cfg.origins[plan.opos];
+    env.rec.req(
+        plan.id,
+        json!({"e": "Issue", "r": plan.id, "origin": o.idx, "ver": if plan.h2 {"h2"} else {"h1"}, "upg": plan.upgrade}),
+    );
+    let cancel = Arc::new(Notify::new());
+    let req = build_request(&env, &plan, &cancel);
+    // (request built)
+    let mut op: Option<BoxFut<Outcome>> = Some(Box::pin(do_request(env.clone(), svc.oneshot(req), plan.clone())));
     let out = match plan.cancel {
         CancelPlan::AfterDelayUs(us) => {
             tokio::select! {
@@ -1643,9 +1672,17 @@ struct RunStats {
     srv_errors: Vec<String>,
 }
 
-async fn run_one(cfg: Arc<RunCfg>, sockdir: String) -> RunStats {
+struct World {
+    rec: Arc<Recorder>,
+    reg: Arc<Registry>,
+    env: Arc<Env>,
+    servers: Vec<ServerHandle>,
+    socks: Vec<String>,
+}
+
+/// Servers (one instance per origin), the connection registry and the recorder of one run.
+async fn start_world(cfg: &Arc<RunCfg>, sockdir: &str, gate: Option<Gate>) -> World {
     let rec = Arc::new(Recorder::default());
-    // ---- servers, one instance per origin
     let mut targets = Vec::new();
     let mut servers = Vec::new();
     let mut socks = Vec::new();
@@ -1682,6 +1719,7 @@ async fn run_one(cfg: Arc<RunCfg>, sockdir: String) -> RunStats {
         servers.push(ServerHandle { task, aborts });
     }
     let reg = Arc::new(Registry {
+        gate,
         cfg: cfg.clone(),
         rec: rec.clone(),
         targets,
@@ -1693,66 +1731,187 @@ async fn run_one(cfg: Arc<RunCfg>, sockdir: String) -> RunStats {
         cfg: cfg.clone(),
         rec: rec.clone(),
     });
-    let mut pool_cfg = hyperdriver::client::pool::Config::default();
-    pool_cfg.continue_after_preemption = cfg.cap;
-    pool_cfg.idle_timeout = if cfg.idle_timeout { Some(Duration::from_secs(90)) } else { None };
-    let transport = E2eTransport { reg: reg.clone() };
-    let protocol = ObservedProtocol {
-        inner: HttpConnectionBuilder::<ScriptBody>::default(),
-        rec: rec.clone(),
-    };
+    World {
+        rec,
+        reg,
+        env,
+        servers,
+        socks,
+    }
+}
+
+impl World {
+    fn pool_cfg(&self) -> hyperdriver::client::pool::Config {
+        let mut pool_cfg = hyperdriver::client::pool::Config::default();
+        pool_cfg.continue_after_preemption = self.env.cfg.cap;
+        pool_cfg.idle_timeout = if self.env.cfg.idle_timeout { Some(Duration::from_secs(90)) } else { None };
+        pool_cfg
+    }
+
+    fn transport(&self) -> E2eTransport {
+        E2eTransport { reg: self.reg.clone() }
+    }
+
+    fn protocol(&self) -> ObservedProtocol<HttpConnectionBuilder<ScriptBody>> {
+        ObservedProtocol {
+            inner: HttpConnectionBuilder::<ScriptBody>::default(),
+            rec: self.rec.clone(),
+        }
+    }
+
+    async fn finish(self, stuck: usize, conns_killed: usize) -> RunStats {
+        for s in &self.servers {
+            s.task.abort();
+            for h in s.aborts.lock().unwrap().drain(..) {
+                h.abort();
+            }
+        }
+        for s in self.servers {
+            let _ = s.task.await;
+        }
+        tokio::time::sleep(Duration::from_millis(2)).await;
+        for p in self.socks {
+            let _ = std::fs::remove_file(p);
+        }
+        let mut evs = std::mem::take(&mut *self.rec.events.lock().unwrap());
+        evs.sort_by(|a, b| a.0.cmp(&b.0));
+        let srv_errors = self.rec.srv_errors.lock().unwrap().clone();
+        RunStats {
+            events: evs.into_iter().map(|(_, v)| v).collect(),
+            dials: self.reg.dials.load(Ordering::Relaxed),
+            conns_killed,
+            stuck,
+            handle_aborted: self.rec.handle_aborted.load(Ordering::Relaxed),
+            srv_errors,
+        }
+    }
+}
+
+macro_rules! pool_stack {
+    ($w:expr) => {{
+        let inner = tower::ServiceBuilder::new()
+            .layer(SetHostHeaderLayer::new())
+            .layer(Http2ChecksLayer::new())
+            .layer(Http1ChecksLayer::new())
+            .service(RequestExecutor::new());
+        ConnectionPoolService::<_, _, _, ScriptBody, hyperdriver::client::pool::UriKey>::new(
+            TlsTransport::new($w.transport()),
+            $w.protocol(),
+            inner,
+            $w.pool_cfg(),
+        )
+    }};
+}
+
+async fn run_one(cfg: Arc<RunCfg>, sockdir: String) -> RunStats {
+    let w = start_world(&cfg, &sockdir, None).await;
     let (stuck, conns_killed) = match cfg.stack {
         Stack::Client => {
             // the full `Client::builder()` stack (user agent, response adaptation, pool, host header,
             // HTTP/1 + HTTP/2 request checks, executor) with the custom transport and body types
             let svc = hyperdriver::Client::builder()
-                .with_transport(transport)
-                .with_protocol(protocol)
-                .with_pool(pool_cfg)
+                .with_transport(w.transport())
+                .with_protocol(w.protocol())
+                .with_pool(w.pool_cfg())
                 .with_body::<ScriptBody, hyperdriver::Body>()
                 .build_service();
-            drive(env.clone(), reg.clone(), &servers, svc).await
+            drive(w.env.clone(), w.reg.clone(), &w.servers, svc).await
         }
         Stack::Pool => {
-            let inner = tower::ServiceBuilder::new()
-                .layer(SetHostHeaderLayer::new())
-                .layer(Http2ChecksLayer::new())
-                .layer(Http1ChecksLayer::new())
-                .service(RequestExecutor::new());
-            let svc = ConnectionPoolService::<_, _, _, ScriptBody, hyperdriver::client::pool::UriKey>::new(
-                TlsTransport::new(transport),
-                protocol,
-                inner,
-                pool_cfg,
-            );
-            drive(env.clone(), reg.clone(), &servers, svc).await
+            let svc = pool_stack!(w);
+            drive(w.env.clone(), w.reg.clone(), &w.servers, svc).await
         }
     };
-    // ---- teardown
-    for s in &servers {
-        s.task.abort();
-        for h in s.aborts.lock().unwrap().drain(..) {
-            h.abort();
+    w.finish(stuck, conns_killed).await
+}
+
+/// Deterministic scenario (no clocks; causally ordered through a gate in the transport):
+/// pool with continue_after_preemption = false, one HTTP/2-only origin.
+///   1. R1 (HTTP/2) is issued and polled: it announces the connection attempt; its dial is held.
+///   2. R2 (same origin) is issued: the pool tells it to wait for R1's attempt (no connector).
+///   3. R1 is dropped by its caller while its dial is still in progress.
+///   4. the gate is opened; R2 is awaited.
+/// C01: R2 was not cancelled and no peer broke anything, so R2 must complete successfully.
+async fn scenario_waiter_owner_cancelled(sockdir: String) -> (Arc<RunCfg>, RunStats) {
+    let cfg = Arc::new(RunCfg {
+        master: 0,
+        run: 0,
+        seed: mix(0xD2, 0xD2),
+        thorough: false,
+        stack: Stack::Pool,
+        origins: vec![OriginCfg {
+            idx: 0,
+            proto: Proto::H2,
+            tr: Tr::Duplex,
+        }],
+        cap: false,
+        idle_timeout: false,
+        waves: vec![],
+        n_main: 2,
+        zone_d7: false,
+        p_cancel: 0,
+        p_upgrade: 0,
+    });
+    let (open_tx, open_rx) = tokio::sync::watch::channel(false);
+    let dial_started = Arc::new(Notify::new());
+    let w = start_world(
+        &cfg,
+        &sockdir,
+        Some(Gate {
+            open: open_rx,
+            dial_started: dial_started.clone(),
+        }),
+    )
+    .await;
+    let mut svc = pool_stack!(w);
+    let never = Arc::new(Notify::new());
+    let issue = |p: &Plan| json!({"e": "Issue", "r": p.id, "origin": 0, "ver": "h2", "upg": false});
+    let mut p1 = Plan::derive(&cfg, 1);
+    p1.cancel = CancelPlan::None;
+    let mut p2 = Plan::derive(&cfg, 2);
+    p2.cancel = CancelPlan::None;
+    let (p1, p2) = (Arc::new(p1), Arc::new(p2));
+    // 1
+    w.rec.req(1, issue(&p1));
+    let f1 = svc.call(build_request(&w.env, &p1, &never));
+    let h1 = tokio::spawn(async move {
+        let _ = f1.await;
+    });
+    dial_started.notified().await;
+    // 2: the checkout is created inside `Service::call`
+    w.rec.req(2, issue(&p2));
+    let f2 = svc.call(build_request(&w.env, &p2, &never));
+    // 3
+    h1.abort();
+    let _ = h1.await;
+    w.rec.req(1, json!({"e": "Cancel", "r": 1, "stage": "dialling"}));
+    // 4
+    let _ = open_tx.send(true);
+    let out = tokio::time::timeout(STALL, do_request(w.env.clone(), f2, p2.clone())).await;
+    let mut stuck = 0;
+    let ev = match out {
+        Ok(Outcome::Response {
+            status,
+            echo,
+            stamp,
+            status_ok,
+            headers_ok,
+            body_ok,
+            upgraded,
+            ..
+        }) => json!({"e": "Response", "r": 2, "echo": echo, "stamp": stamp, "status": status,
+                    "statusOk": status_ok, "headersOk": headers_ok, "bodyOk": body_ok, "upgraded": upgraded}),
+        Ok(Outcome::Error(kind)) => json!({"e": "Error", "r": 2, "kind": kind}),
+        Ok(Outcome::Cancel(stage)) => json!({"e": "Cancel", "r": 2, "stage": stage}),
+        Err(_) => {
+            stuck = 1;
+            json!({"e": "Stuck", "r": 2})
         }
-    }
-    for s in servers {
-        let _ = s.task.await;
-    }
-    tokio::time::sleep(Duration::from_millis(2)).await;
-    for p in socks {
-        let _ = std::fs::remove_file(p);
-    }
-    let mut evs = std::mem::take(&mut *rec.events.lock().unwrap());
-    evs.sort_by(|a, b| a.0.cmp(&b.0));
-    let srv_errors = rec.srv_errors.lock().unwrap().clone();
-    RunStats {
-        events: evs.into_iter().map(|(_, v)| v).collect(),
-        dials: reg.dials.load(Ordering::Relaxed),
-        conns_killed,
-        stuck,
-        handle_aborted: rec.handle_aborted.load(Ordering::Relaxed),
-        srv_errors,
-    }
+    };
+    w.rec.req(2, ev);
+    drop(svc);
+    drop(open_tx);
+    (cfg, w.finish(stuck, 0).await)
 }
 
 // ------------------------------------------------------------------------------------------------
@@ -1773,6 +1932,34 @@ fn main() {
         let cfg = RunCfg::derive(arg(&args, "--seed", 1u64), arg(&args, "--first", 0usize), arg(&args, "--tier", "quick".to_string()) == "thorough", arg(&args, "--max-req", 24usize));
         let id: u32 = arg(&args, "--id", 1u32);
         println!("{}", serde_json::to_string(&json!({"cfg": cfg.to_json(), "plan": Plan::derive(&cfg, id).summary(&cfg)})).unwrap());
+        return;
+    }
+    if cmd == "scenario" {
+        let name = args.get(2).map(|s| s.as_str()).unwrap_or("");
+        if name != "waiter-owner-cancelled" {
+            eprintln!("unknown scenario {name}");
+            std::process::exit(2);
+        }
+        let out: String = arg(&args, "--out", "/verif/out/C01/scenario.ndjson".to_string());
+        let sockdir: String = arg(&args, "--sockdir", "/verif/out/C01/s".to_string());
+        std::fs::create_dir_all(&sockdir).ok();
+        let rt = tokio::runtime::Builder::new_multi_thread().worker_threads(4).enable_all().build().expect("runtime");
+        let (cfg, stats) = rt.block_on(scenario_waiter_owner_cancelled(sockdir));
+        let mut trace = vh::trace::TraceOut::create(&out);
+        trace.emit(&json!({"e": "Reset", "run": 0, "rep": 0, "seed": 0, "tier": "scenario", "maxReq": 2,
+                           "scenario": name, "cfg": cfg.to_json()}));
+        let mut issued = 0;
+        for ev in &stats.events {
+            if ev["e"] == "Issue" {
+                issued += 1;
+            }
+            trace.emit(ev);
+        }
+        trace.emit(&json!({"e": "EndRun", "issued": issued, "dials": stats.dials, "connsKilled": 0, "handleAborted": stats.handle_aborted}));
+        let lines = trace.lines;
+        trace.finish();
+        println!("{}", serde_json::to_string(&json!({"scenario": name, "trace": out, "events": lines, "runs": 1, "repeat": 1,
+            "outcome": stats.events.iter().filter(|e| e["r"] == 2 && e["e"] != "Issue").cloned().collect::<Vec<_>>()})).unwrap());
         return;
     }
     if cmd != "run" {
